@@ -40,9 +40,9 @@ class TurnBasedManager(SimulationManager):
         is found that is not done. If all agents are done in this turn, then the
         wrapper returns all done.
         """
-        agent_id = next(iter(action_dict))
-        assert agent_id not in self.done_agents, \
-            "Received an action for an agent that is already done."
+        for agent_id in action_dict:
+            assert agent_id not in self.done_agents, \
+                "Received an action for an agent that is already done."
         self.sim.step(action_dict, **kwargs)
 
         obs, rewards, dones, infos = {}, {}, {'__all__': self.sim.get_all_done()}, {}
